@@ -4,6 +4,7 @@ This module handles tree writing in different formats.
 
 Author: Wolfgang Maier <maierw@hhu.de>
 """
+import codecs
 import sys
 from math import floor
 from xml.sax.saxutils import quoteattr
@@ -270,7 +271,15 @@ def tigerxml_begin(stream, **params):
     """The start of a tigerxml document. To be completed.
     """
     encoding = getattr(stream, 'encoding', None)
-    if encoding and encoding.lower().replace('-', '').replace('_', '') != 'utf8':
+    if encoding:
+        try:
+            # the name an XML parser knows, whatever spelling was given
+            encoding = codecs.lookup(encoding).name
+            if encoding.startswith('iso8859-'):
+                encoding = 'iso-8859-' + encoding[len('iso8859-'):]
+        except LookupError:
+            pass
+    if encoding and encoding != 'utf-8':
         stream.write(u"<?xml version='1.0' encoding='%s'?>\n" % encoding)
     else:
         stream.write(u"<?xml version='1.0'?>\n")
